@@ -645,6 +645,19 @@ func (s *Server) handleRequest(req *dhcpv4.DHCPv4) (*dhcpv4.DHCPv4, error) {
 		} else if !pool.Contains(requestedIP) {
 			atomic.AddUint64(&s.naksTotal, 1)
 			return s.buildNAK(req, "IP not in pool")
+		} else if !s.nexusAllocates(mac) {
+			// The local pool owns the address: the client may only be
+			// acknowledged the address the pool allocated to it in DISCOVER,
+			// or (INIT-REBOOT after its lease lapsed) an address that is free.
+			if err := pool.AllocateSpecific(mac, requestedIP); err != nil {
+				s.logger.Warn("Requested IP not available for client",
+					zap.String("mac", mac.String()),
+					zap.String("ip", requestedIP.String()),
+					zap.Error(err),
+				)
+				atomic.AddUint64(&s.naksTotal, 1)
+				return s.buildNAK(req, "IP not available")
+			}
 		}
 	}
 
@@ -858,6 +871,16 @@ func (s *Server) handleRequest(req *dhcpv4.DHCPv4) (*dhcpv4.DHCPv4, error) {
 
 	atomic.AddUint64(&s.acksTotal, 1)
 	return resp, nil
+}
+
+// nexusAllocates reports whether the client's address comes from Nexus rather
+// than from the local pool (see handleDiscover).
+func (s *Server) nexusAllocates(mac net.HardwareAddr) bool {
+	if s.nexusClient == nil {
+		return false
+	}
+	_, ok := s.nexusClient.GetSubscriberByMAC(mac.String())
+	return ok
 }
 
 // handleRelease handles DHCP RELEASE
